@@ -295,6 +295,15 @@ theorem generated_announce_is_model (s : InstState) (pid : PortId) (seq minor : 
 /-- `base_header` takes sdoId, domain, identity and sequence number from its arguments (when recognised) -/
 theorem generated_base_header_as_modelled : Generated.announceBaseHeaderAsModelled ≠ some false := by decide
 
+/-- **`AnnounceMessage::time_properties` as translated on this run is the model's `annTimeProps`**: the `if`-chain of
+the leap indicator, the flag guarding the UTC offset and the flag behind each boolean, for every received Announce -/
+theorem generated_time_properties_is_model (a : Ann) :
+    ∀ t, Generated.timePropertiesTable = some t → buildTp t a = some (annTimeProps a) := by
+  intro t h
+  unfold Generated.timePropertiesTable at h
+  cases h
+  all_goals rfl
+
 end Translated
 
 end Statime.C11
